@@ -236,6 +236,13 @@ EvCtlStopping == /\ Report(First(<<IF ~pend.closedAll /\ ~net.expectStop THEN "s
                  /\ pend' = [pend EXCEPT !.closedAll = TRUE]
                  /\ UNCHANGED <<buf, caches, stages, pubs, fsubs, mons, net>>
 
+\* The controller hands a batch to its root subscription one event at a time, each a rendezvous: when it moves on
+\* (ctl.distributed after a relist, or its next ctl.event / ctl.list) the subscription has taken every event of the
+\* previous batches - all but the last receipt are logged by then (receiver-logged rendezvous, as for publishers).
+CtlRanAhead(c) == LET s == ctls[c].sub IN IsStage(s) /\ ~stages[s].stopping /\ ~ctls[c].stopping /\ Len(stages[s].inq) > 1
+EvCtlDistributed == /\ Report(IF CtlRanAhead(A) THEN "lost-in-fanout" ELSE "", [ctl |-> A, not_yet_taken_by_root_subscription |-> stages[ctls[A].sub].inq])
+                    /\ Skip
+
 EvSubNew == /\ stages' = (A :> NewStage("sub", X(1))) @@ stages
             /\ UNCHANGED <<buf, caches, pubs, fsubs, ctls, mons, pend, net>>
 
@@ -542,7 +549,7 @@ EvListerDelivered == /\ net' = [net EXCEPT !.tDelivered = R.t]
 \* ctl.list(type, err): the controller took a list result
 \* ctl.list(type, err): the controller took a list result.  C03: each completed list is applied to the cache (ctl.synced) -
 \* a good result that is followed by the next one, or by quiescence, without having been synced was ignored
-EvCtlList == /\ Report(IF ctls[A].lp THEN "list-not-applied" ELSE "", [ctl |-> A])
+EvCtlList == /\ Report(First(<<IF ctls[A].lp THEN "list-not-applied" ELSE "", IF CtlRanAhead(A) THEN "lost-in-fanout" ELSE "">>), [ctl |-> A])
              /\ net' = [net EXCEPT !.failDelivered = @ \/ (X(2) # "") \/ (X(1) \notin {"*v1.PodList", "*v1.List"}), !.tConsumed = R.t]
              /\ ctls' = [ctls EXCEPT ![A].lp = (X(2) = "" /\ X(1) \in {"*v1.PodList", "*v1.List"})]
              /\ UNCHANGED <<buf, caches, stages, pubs, fsubs, mons, pend>>
@@ -586,7 +593,7 @@ EvWatcherDrop ==
 \* ctl.event(event): the controller took the next forwarded event
 EvCtlEvent ==
   LET w == ctls[A].watcher IN
-  /\ Report(BDeqClass(net.wat[w], X(1)), [ctl |-> A, event |-> X(1), watcher_box |-> BoxOf(net.wat[w])])
+  /\ Report(First(<<BDeqClass(net.wat[w], X(1)), IF CtlRanAhead(A) THEN "lost-in-fanout" ELSE "">>), [ctl |-> A, event |-> X(1), watcher_box |-> BoxOf(net.wat[w])])
   /\ net' = [net EXCEPT !.wat[w] = BDeq(@, X(1))]
   /\ UNCHANGED <<buf, caches, stages, pubs, fsubs, ctls, mons, pend>>
 
@@ -688,6 +695,7 @@ Dispatch ==
     [] e = "cache.list"       -> EvCacheList
     [] e = "ctl.new"          -> EvCtlNew
     [] e = "ctl.synced"       -> EvCtlSynced
+    [] e = "ctl.distributed"  -> EvCtlDistributed
     [] e = "ctl.ready"        -> EvCtlReady
     [] e = "ctl.updated"      -> EvCtlUpdated
     [] e = "ctl.stopping"     -> EvCtlStopping
